@@ -86,7 +86,8 @@ Record cfg := mkCfg {
   c_srtp : list N; c_mki : list N;
   c_alpn : list N;
   c_cid : option (list N);             (* ConnectionIDGenerator: None = nil, Some b = returns b *)
-  c_store : bool                       (* session store set *)
+  c_store : bool;                      (* session store set *)
+  c_skip_hv : bool                     (* server: InsecureSkipVerifyHello *)
 }.
 
 (* ------------------------------------------------------------------ building a connection (config.go) *)
@@ -427,7 +428,7 @@ Definition server12 (k : conn) (ssuites : list N) (h : hello) (resumable : bool)
   do _ <- req (negb (c_ems s =? g11_ems_require) || ems) g11_alert_insufficient_security;
   let resumed := resumable && h_session h && c_store s in
   (* flight4Generate / flight4bGenerate *)
-  do '(profile, echo, peer_mki) <- negotiate_srtp (h_srtp h) (c_srtp s) (c_mki s);
+  do (profile, echo, peer_mki) <- negotiate_srtp (h_srtp h) (c_srtp s) (c_mki s);
   let ems_ext := ems_requested (c_ems s) && ems in
   let reneg := mem g11_ext_renegotiation_info (h_exts h) || h_scsv h in
   let pf := (s_auth suite =? g11_auth_certificate) && mem g11_ext_point_formats (h_exts h) && negb resumed in
@@ -472,14 +473,17 @@ Definition server13 (k : conn) (ssuites : list N) (h : hello) : res server_fligh
               g11_alert_missing_extension;
   do _ <- req (mem v13 (h_versions h)) g11_alert_internal_error;
   (* preferredClientGroup: the server's order decides; a share must exist for it *)
+  (* no common group: with the cookie exchange the retried hello is refused in flight2Parse
+     (insufficient_security); without it flight2Generate cannot build a HelloRetryRequest that has
+     any effect (illegal_parameter) *)
   do group <- of_opt (first_common (k_curves k) (match h_groups h with Some g => g | None => [] end))
-                     g11_alert_insufficient_security;
+                     (if c_skip_hv s then g11_alert_illegal_parameter else g11_alert_insufficient_security);
   do _ <- req (mem group (h_shares h)) g11_alert_illegal_parameter;
   (* flight4Generate *)
   do _ <- req (negb (c_key s =? 0)) g11_alert_handshake_failure;
   let common := inter (filter sig_known (h_sigs h)) (k_sigs k) in
   do sg <- of_opt (select_sig true common (c_key s)) g11_alert_insufficient_security;
-  do '(profile, echo, peer_mki) <- negotiate_srtp (h_srtp h) (c_srtp s) (c_mki s);
+  do (profile, echo, peer_mki) <- negotiate_srtp (h_srtp h) (c_srtp s) (c_mki s);
   let cid := server_cid h s in
   let rrc := nonempty (match cid with Some _ => [0] | None => [] end) && mem g11_ext_rrc (h_exts h) in
   let exts := [g11_ext_supported_versions; g11_ext_key_share]
@@ -504,7 +508,7 @@ Definition client_auth_sig (is13 : bool) (ck sk : conn) (f : server_flight) : re
 Definition client12 (ck sk : conn) (csuites : list N) (h : hello) (f : server_flight) : res (outcome) :=
   let c := k_cfg ck in
   do _ <- (if validate_response_exts h (f_sh_exts f) then ROk tt else RAlert g11_alert_unsupported_extension);
-  do '(profile, mki) <- validate_srtp (h_srtp h)
+  do (profile, mki) <- validate_srtp (h_srtp h)
         (if f_srtp f =? 0 then None else Some (f_srtp f, f_mki_echo f)) (c_srtp c);
   let cid := decide_cid h (f_cid_ext f) (f_rrc_ext f) in
   let ems := f_ems_ext f && negb (c_ems c =? g11_ems_disable) in
@@ -520,7 +524,7 @@ Definition client12 (ck sk : conn) (csuites : list N) (h : hello) (f : server_fl
     (* flight5Generate: the client's own CertificateVerify is prepared after the key exchange checks *)
     do _ <- req (mem (f_sig f) (k_sigs ck)) g11_alert_insufficient_security;
     do _ <- req (c_skip_verify c || mem (c_chain_sig (k_cfg sk)) (cert_algs ck)) g11_alert_bad_certificate;
-    do '(ccert, cs) <- client_auth_sig false ck sk f;
+    do (ccert, cs) <- client_auth_sig false ck sk f;
     ROk (out (f_sig f) cs ccert)
   else ROk (out 0 0 false).
 
@@ -532,11 +536,11 @@ Definition client13 (ck sk : conn) (csuites : list N) (h : hello) (f : server_fl
               g11_alert_insufficient_security;
   do _ <- req (mem (f_group f) (h_shares h)) g11_alert_illegal_parameter;
   do _ <- (if validate_response_exts h (f_ee_exts f) then ROk tt else RAlert g11_alert_unsupported_extension);
-  do '(profile, mki) <- validate_srtp (h_srtp h)
+  do (profile, mki) <- validate_srtp (h_srtp h)
         (if f_srtp f =? 0 then None else Some (f_srtp f, f_mki_echo f)) (c_srtp c);
   do _ <- req (mem (f_sig f) (k_sigs ck)) g11_alert_insufficient_security;
   do _ <- req (c_skip_verify c || mem (c_chain_sig (k_cfg sk)) (cert_algs ck)) g11_alert_bad_certificate;
-  do '(ccert, cs) <- client_auth_sig true ck sk f;
+  do (ccert, cs) <- client_auth_sig true ck sk f;
   if ccert && negb (sig_encodable cs) then RSilent else
   ROk (mkOut v13 (f_suite f) (f_group f) (f_sig f) cs true profile mki (f_mki_peer f) 0 cid false true ccert
              (f_cert_req f) (h_exts h) (f_sh_exts f)).
